@@ -569,6 +569,21 @@ fn gate_cases(o: &mut Out, r: &mut Rng, d: &Desc, thorough: bool) {
             let mut a2 = d.code.clone();
             a2.push(k as u64);
             o.line("circuit_agrees", &a2, Some(vec![agree]));
+            // the same row under a NARROW builder configuration (37 routed wires, as in the
+            // size-optimised recursion config): the in-circuit evaluator is assembled from other gates
+            // and PoseidonGate switches to its MDS-gate-free branch; the values must not depend on it
+            if k == 0 {
+                let narrow = CircuitConfig { num_routed_wires: 37, ..CircuitConfig::standard_recursion_config() };
+                let circ_n = eval_circuit(d, narrow, &consts, &wires, &pi);
+                let agree_n = match (&circ_n, &res) {
+                    (Some(x), Some(y)) => (x == y) as u64,
+                    (None, None) => 1,
+                    _ => 0,
+                };
+                let mut a3 = d.code.clone();
+                a3.push(100);
+                o.line("circuit_agrees", &a3, Some(vec![agree_n]));
+            }
         }
     }
     // a row that is one wire too short: the real evaluator indexes out of range
